@@ -151,19 +151,28 @@ func (c *Collection) add(key string, exp Exp, val []byte, isJSON bool) (added bo
 	var casOut CAS
 	err = c.withNewCas(func(txn *sql.Tx, newCas CAS) (e *event, err error) {
 		exp = absoluteExpiry(exp)
-		var revSeqNo uint64 = 1
+		// Re-creating a tombstone is one more revision of the key, not revision 1 again:
+		var revSeqNo uint64
+		row := txn.QueryRow(`SELECT revSeqNo FROM documents WHERE collection=? AND key=?`, c.id, key)
+		if err = scan(row, &revSeqNo); err != nil && err != sql.ErrNoRows {
+			return nil, remapKeyError(err, key)
+		}
+		revSeqNo++
 		result, err := txn.Exec(
 			`INSERT INTO documents (collection,key,value,cas,exp,isJSON, revSeqNo) VALUES (?1,?2,?3,?4,?5,?6,?7)
 				ON CONFLICT(collection,key) DO
-					UPDATE SET value=?3, xattrs=null, cas=?4, exp=?5, isJSON=?6, tombstone=0
+					UPDATE SET value=?3, xattrs=null, cas=?4, exp=?5, isJSON=?6, tombstone=0, revSeqNo=?7
 					WHERE tombstone != 0`,
-			c.id, key, val, newCas, exp, isJSON, 1, revSeqNo)
+			c.id, key, val, newCas, exp, isJSON, revSeqNo)
 		if err != nil {
 			return
 		}
 		casOut = newCas
 		n, _ := result.RowsAffected()
 		added = (n > 0)
+		if !added {
+			return nil, nil // nothing was written, so there is no mutation to announce
+		}
 
 		e = &event{
 			key:      key,
